@@ -98,8 +98,11 @@ def judge_path(chosen, prefix, restrict, part, replay, what):
             break
     if os.path.isabs(rel) or not os.path.abspath(chosen).startswith(os.path.abspath(prefix) + os.sep):
         key = 'path-outside-prefix'
-    real = os.path.realpath(chosen)
-    if not real.startswith(os.path.realpath(prefix) + os.sep):
+    try:
+        real = os.path.realpath(chosen)
+    except ValueError:
+        real = None         # embedded NUL (only possible when the user disabled the control-character restriction)
+    if real is not None and not real.startswith(os.path.realpath(prefix) + os.sep):
         key = 'realpath-outside-prefix'
     if key:
         part.violation('{}/{}'.format(key, what), {'chosen': chosen, 'relative': rel, 'restrict': restrict,
@@ -171,6 +174,13 @@ def run_case(case, part):
         except Exception as e:
             part.count('exceptions_instead_of_path')
             part.count('exception_{}_{}'.format(type(e).__name__, 'windows' if 'windows' in restrict else 'unix'))
+            # the name may already have been chosen when opening it failed (e.g. it names a directory): judge it too
+            chosen = getattr(ws, '_filename', None) if 'ws' in locals() else None
+            if chosen:
+                part.count('names_judged_although_open_failed')
+                judge_path(chosen, prefix, restrict, part, replay,
+                           'writer+content-disposition' if case.get('disposition') and
+                           '--content-disposition' in case['options'] else 'writer')
         # 3. nothing may have been created outside the prefix
         outside = []
         for root, dirs, files in os.walk(sandbox):
